@@ -18,7 +18,8 @@ def expected_char(t, b):
 
 
 def job_size(job):
-    v, seed = job
+    v, seed = job[:2]
+    labelmode = job[2] if len(job) > 2 else 'iso'
     prog = worker_prog()
     extra = worker_extra()
     res = {'evaluations': 0, 'obligations': 0, 'discharged': 0, 'failures': [], 'nontrivial': [], 'samples': [],
@@ -27,8 +28,13 @@ def job_size(job):
     rnd = random.Random(seed * 101 + v)
     I = M.Interp(prog)
     vals = [T.var('m%d' % i, 1) for i in range(n * n)]
-    # arbitrary type bits (concrete, random): rendering must depend on the value bit only
-    types = [rnd.choice([0, 2, 4, 6, 8, 10, 12, 14]) for _ in range(n * n)]
+    # type bits: the labels every built symbol of this version has (so rows that agree in type and value, e.g. through the
+    # finder patterns, exist), or arbitrary ones (rendering must depend on the value bit only)
+    if labelmode == 'iso':
+        g_ = iso.geometry(v + 1)
+        types = [g_['label'][i // n][i % n] for i in range(n * n)]
+    else:
+        types = [rnd.choice([0, 2, 4, 6, 8, 10, 12, 14]) for _ in range(n * n)]
     cells = [I.mk([T.bor(8, types[i], T.zext(1, 8, vals[i]))], 'Module') for i in range(n * n)]
     cells += [I.mk([0], 'Module') for _ in range(177 * 177 - n * n)]
     qr = I.mk([I.mk(cells), n, I.mk([0], 'enum'), I.mk([0], 'enum'), I.mk([0], 'enum'), I.mk([0], 'enum')], 'QRCode')
@@ -73,8 +79,8 @@ def job_size(job):
     res['panic_obligations'] = len(pan)
     res['evaluations'] = res['obligations']
     res['discharged'] = res['obligations'] - len(fails) - len(unk)
-    res['nontrivial'] = ['V%02d char %d' % (v + 1, i) for i, x in enumerate(want) if type(x) is not int]
-    res['samples'] = [{'size': n, 'free': '%d module values, type bits random concrete' % (n * n), 'text_chars': len(got),
+    res['nontrivial'] = ['V%02d %s char %d' % (v + 1, labelmode, i) for i, x in enumerate(want) if type(x) is not int]
+    res['samples'] = [{'size': n, 'free': '%d module values, type bits %s' % (n * n, 'as in every built symbol of this version' if labelmode == 'iso' else 'random concrete'), 'text_chars': len(got),
                        'obligations': len(items), 'sent_to_solver': nsolv}]
     if unk and not fails:
         raise Inconclusive('solver returned unknown: %s' % unk[:2])
@@ -120,6 +126,26 @@ def job_size(job):
     return res
 
 
+def _to_str_panics(job, exc, extra):
+    """to_str reached a panic on every path for this size: replay a matrix of that size natively"""
+    v, seed = job[:2]
+    n = iso.size(v + 1)
+    rnd = random.Random(seed + v)
+    native = OV.Native(extra['native'])
+    mod = [rnd.randrange(2) for _ in range(n * n)]
+    req = 'to_str %d %s' % (v, OV.hexs(mod))
+    ans = native.ask(req)
+    native.close()
+    if ans.startswith('PANIC') or ans == 'ABORT':
+        return {'failures': [{'key': 'C16/rendering', 'confirmed': True, 'replay': {'request': req[:200]},
+                              'what': 'to_str panics for every %dx%d matrix: %s (executor: %s)' % (n, n, ans[:100], str(exc)[:80])}],
+                'obligations': 1, 'evaluations': 1, 'discharged': 0}
+    return None
+
+
+job_size.on_concrete_panic = _to_str_panics
+
+
 def main(argv):
     chk = Check('C16', argv, features='svg')
     chk.rule = ('one obligation per character of the rendered text per size with every module value symbolic; non-trivial = the expected '
@@ -127,9 +153,10 @@ def main(argv):
     chk.load()
     vs = list(range(40))      # all 40 sizes are cheap enough for both tiers
     native_path = chk.ov.native(chk.features)
-    chk.jobs(job_size, [(v, chk.seed) for v in sorted(vs, reverse=True)], extra={'native': native_path})
+    chk.jobs(job_size, [(v, chk.seed, 'iso') for v in sorted(vs, reverse=True)] + [(v, chk.seed, 'random') for v in (0, 1, 6, 39)],
+             extra={'native': native_path})
     chk.cov['sizes'] = [iso.size(v + 1) for v in vs]
-    chk.bounds += ['sizes %s (thorough: all 40), every module value symbolic, type bits arbitrary concrete' % [iso.size(v + 1) for v in vs]]
+    chk.bounds += ['sizes %s (thorough: all 40), every module value symbolic, type bits as in every built symbol of that version (plus V1, V2, V7, V40 with arbitrary type bits)' % [iso.size(v + 1) for v in vs]]
     chk.outside += ['QRCode::print (writes the same string to stdout)', 'sizes other than 17+4v (QRCode values are only produced by the builder)']
     chk.assumptions += ['String model: a sequence of code points; String::push / push_str / format! models trusted and validated against the native output']
     chk.finish()
